@@ -790,6 +790,11 @@ func ruleW9(c *Ctx) {
 		}
 		pp, tn := namedOf(cal.Signature.Recv().Type())
 		if pp == "sync/atomic" {
+			// an atomic cell at package level that holds a pointer or an arbitrary value is shared storage:
+			// publishing into it (Store, Swap, CompareAndSwap) is a write to process-wide state
+			if (tn == "Pointer" || tn == "Value") && cal.Name() != "Load" {
+				return ""
+			}
 			return "synchronisation primitive " + pp + "." + tn
 		}
 		if pp == "sync" {
